@@ -115,7 +115,8 @@ func check(c Case, o *vf.Obs) error {
 	}
 	sem := texts.SemF(c.Tree)
 	names := sem.Vars()
-	for m := uint64(0); m < 1<<uint(len(names)); m++ {
+	o.ClassIf(len(txt) > 65536 && !strings.Contains(txt, "\n"), "one-line>64KB")
+	for _, m := range assignments(len(names)) {
 		env := oracle.EnvOf(names, m)
 		var got bool
 		if perr := vf.Safely(func() error { got = f.Eval(env); return nil }); perr != nil {
@@ -126,6 +127,87 @@ func check(c Case, o *vf.Obs) error {
 		}
 	}
 	return nil
+}
+
+// assignments lists the assignments (bit i = i-th name) a parse result is compared under: all of them up to 14
+// names; beyond that (at most 64 names) all-false, all-true, every single name true, every pair with one of the first 5,
+// every single name false, and 300 fixed pseudo-random ones.
+func assignments(n int) []uint64 {
+	var out []uint64
+	if n <= 14 {
+		for m := uint64(0); m < 1<<uint(n); m++ {
+			out = append(out, m)
+		}
+		return out
+	}
+	all := uint64(1)<<uint(n) - 1
+	if n >= 64 {
+		all = ^uint64(0)
+	}
+	out = append(out, 0, all)
+	for i := 0; i < n; i++ {
+		out = append(out, 1<<uint(i), all&^(1<<uint(i)))
+	}
+	for i := 0; i < 5 && i < n; i++ {
+		for j := i + 1; j < n; j++ {
+			out = append(out, 1<<uint(i)|1<<uint(j))
+		}
+	}
+	x := uint64(0x2545f4914f6cdd1d)
+	for i := 0; i < 300; i++ {
+		x ^= x << 13
+		x ^= x >> 7
+		x ^= x << 17
+		m := x & all
+		if i%3 == 0 { // sparse ones: few names true
+			x ^= x << 13
+			x ^= x >> 7
+			x ^= x << 17
+			m &= x
+			x ^= x << 13
+			x ^= x >> 7
+			x ^= x << 17
+			m &= x
+		}
+		out = append(out, m)
+	}
+	return out
+}
+
+// genWide: exactly-one groups of 5..40 names (the translation of a group changes shape with its width) inside a small
+// formula.
+func genWide(t *rapid.T) Case {
+	pool := append([]string{}, idents...)
+	for i := 0; i < 40; i++ {
+		pool = append(pool, fmt.Sprintf("v%d", i))
+	}
+	group := func() *oracle.F {
+		k := gen.Uniform(t, 5, 40, "width")
+		perm := rapid.Permutation(append([]string{}, pool...)).Draw(t, "names")
+		f := &oracle.F{Op: "unique"}
+		for _, n := range perm[:k] {
+			f.Kids = append(f.Kids, oracle.V(n))
+		}
+		return f
+	}
+	leaf := func() *oracle.F { return oracle.V(pool[gen.Uniform(t, 0, len(pool)-1, "id")]) }
+	var tree *oracle.F
+	switch rapid.IntRange(0, 4).Draw(t, "shape") {
+	case 0:
+		tree = group()
+	case 1:
+		tree = &oracle.F{Op: "or", Kids: []*oracle.F{{Op: "not", Kids: []*oracle.F{leaf()}}, group()}}
+	case 2:
+		tree = &oracle.F{Op: "and", Kids: []*oracle.F{group(), {Op: "implies", Kids: []*oracle.F{leaf(), leaf()}}}}
+	case 3:
+		tree = &oracle.F{Op: "not", Kids: []*oracle.F{group()}}
+	default:
+		tree = &oracle.F{Op: "semi", Kids: []*oracle.F{group(), group()}}
+	}
+	toks := texts.Tokens(tree, texts.RenderOpts{})
+	sp := spaces(t, len(toks)+1, rapid.Bool().Draw(t, "wildSpaces"))
+	fixSpaces(toks, sp)
+	return Case{Tree: tree, Tokens: toks, Spaces: sp, Kind: "positive", How: "wide-group"}
 }
 
 func genTree(t *rapid.T, budget *int, depth int) *oracle.F {
@@ -158,6 +240,16 @@ func genChain(t *rapid.T) Case {
 		n = 8 + n%9 // bf.Eq(f, g) holds g twice and Eval visits both: a chain of '=' costs 2^n evaluations
 	}
 	vars := []string{"a", "b", "c1", "d_x"}
+	longNames := op != "eq" && gen.Chance(t, 1, 3, "longNames")
+	if longNames {
+		// identifiers of 150..400 characters: with >= 400 operands on one line, that line is longer than 64 KB
+		for i := range vars {
+			vars[i] += strings.Repeat("x_", gen.Uniform(t, 75, 200, "idlen"))
+		}
+		if n < 450 {
+			n += 450
+		}
+	}
 	leaf := func() *oracle.F {
 		f := oracle.V(vars[gen.Uniform(t, 0, len(vars)-1, "v")])
 		if gen.Chance(t, 1, 3, "neg") {
@@ -172,7 +264,7 @@ func genChain(t *rapid.T) Case {
 	}
 	toks := texts.Tokens(tree, texts.RenderOpts{})
 	sp := spaces(t, len(toks)+1, false)
-	if rapid.Bool().Draw(t, "newlines") {
+	if !longNames && rapid.Bool().Draw(t, "newlines") {
 		for i := range sp {
 			if i > 0 && toks[i-1] == opTok(op) {
 				sp[i] = "\n"
@@ -304,8 +396,10 @@ func init() {
 	subNegative = vf.Sub[Case]{Name: "negative", Quick: 10000, Thorough: 150000, Gen: genNegative, Check: check, Floor: 0.5,
 		Rule: "token-level corruptions of a valid rendering: operand deleted, operator deleted or doubled, parenthesis deleted or added, token appended, empty text, {}, {a,}; corruptions that the harness's own recogniser of the documented grammar still accepts are discarded (counted as excluded); asserted: error != nil, formula == nil, no panic; non-trivial = the corrupted text is ill-formed"}
 	subChains := vf.Sub[Case]{Name: "long-chains", Quick: 60, Thorough: 600, Gen: genChain, Check: check, Floor: 0,
-		Rule: "flat chains of 40..4000 (possibly negated) variables joined by one operator (';', '&', '|', '->'; '=' chains are kept under 17 operands because Formula.Eval of nested equivalences is exponential), one operand per line or on one line; the parse result must be equivalent to the right-nested reading under all assignments of the 4 variables"}
-	vf.Register(subPositive, subNegative, subChains)
+		Rule: "flat chains of 40..4000 (possibly negated) variables joined by one operator (';', '&', '|', '->'; '=' chains are kept under 17 operands because Formula.Eval of nested equivalences is exponential), one operand per line or on one line (a third of the chains use identifiers of 150..400 characters, so that the single line exceeds 64 KB); the parse result must be equivalent to the right-nested reading under all assignments of the 4 variables"}
+	subWide := vf.Sub[Case]{Name: "wide-groups", Quick: 250, Thorough: 20000, Gen: genWide, Check: check, Floor: 0,
+		Rule: "exactly-one groups of 5..40 names in braces, alone, negated, under | and &, or two of them joined by ';'; the parse result is compared with 'exactly one member true' under all assignments up to 14 names, beyond that under all-false, all-true, each single name true / false, pairs, and 300 fixed pseudo-random assignments"}
+	vf.Register(subPositive, subNegative, subChains, subWide)
 }
 
 func TestMain(m *testing.M)   { vf.Main(m, "C17") }
